@@ -22,24 +22,34 @@ def build(spec, setup=True):
     return ss, assigned, ok
 
 
+def bus_id(i, n, idx_kind):
+    """bus index of position i (1-based): numbers, strings, or numbers with the last bus named by a string (one index column
+    holding both kinds)"""
+    if idx_kind == "int":
+        return i
+    if idx_kind == "mixed":
+        return "B%d" % i if i == n else i
+    return "B%d" % i
+
+
 def simple_network(nbus, edges, slack_buses, pv_buses=(), pq_buses=(), shunt_buses=(), line_u=None, bus_u=None,
                    slack_u=None, idx_kind="int", vn=110.0):
     """edges: list of (i, j) with buses numbered 1..nbus.  Returns a spec."""
     def bid(i):
-        return i if idx_kind == "int" else "B%d" % i
+        return bus_id(i, nbus, idx_kind)
     devs = []
     for i in range(1, nbus + 1):
         devs.append(dict(model="Bus", idx=bid(i), name="Bus %d" % i, Vn=vn, u=(bus_u[i - 1] if bus_u else 1)))
     for k, (i, j) in enumerate(edges):
-        devs.append(dict(model="Line", idx=("L%d" % (k + 1) if idx_kind != "int" else k + 1), bus1=bid(i), bus2=bid(j),
+        devs.append(dict(model="Line", idx=("L%d" % (k + 1) if idx_kind == "str" else k + 1), bus1=bid(i), bus2=bid(j),
                          Vn1=vn, Vn2=vn, r=0.01, x=0.1, b=0.02, u=(line_u[k] if line_u else 1)))
     for k, b in enumerate(slack_buses):
-        devs.append(dict(model="Slack", idx=("S%d" % (k + 1) if idx_kind != "int" else 100 + k), bus=bid(b), Vn=vn, v0=1.0,
+        devs.append(dict(model="Slack", idx=("S%d" % (k + 1) if idx_kind == "str" else 100 + k), bus=bid(b), Vn=vn, v0=1.0,
                          a0=0.0, p0=0.5, u=(slack_u[k] if slack_u else 1)))
     for k, b in enumerate(pv_buses):
-        devs.append(dict(model="PV", idx=("G%d" % (k + 1) if idx_kind != "int" else 200 + k), bus=bid(b), Vn=vn, v0=1.0, p0=0.2))
+        devs.append(dict(model="PV", idx=("G%d" % (k + 1) if idx_kind == "str" else 200 + k), bus=bid(b), Vn=vn, v0=1.0, p0=0.2))
     for k, b in enumerate(pq_buses):
-        devs.append(dict(model="PQ", idx=("D%d" % (k + 1) if idx_kind != "int" else 300 + k), bus=bid(b), Vn=vn, p0=0.1, q0=0.03))
+        devs.append(dict(model="PQ", idx=("D%d" % (k + 1) if idx_kind == "str" else 300 + k), bus=bid(b), Vn=vn, p0=0.1, q0=0.03))
     for k, b in enumerate(shunt_buses):
-        devs.append(dict(model="Shunt", idx=("H%d" % (k + 1) if idx_kind != "int" else 400 + k), bus=bid(b), Vn=vn, b=0.05))
+        devs.append(dict(model="Shunt", idx=("H%d" % (k + 1) if idx_kind == "str" else 400 + k), bus=bid(b), Vn=vn, b=0.05))
     return dict(devices=devs)
